@@ -9,13 +9,14 @@ ViewsN(shape) == Views1(shape) \cup {<<Sl(0, shape[1], 1), Sl(1, shape[2], 1)>>,
 c_ViewsOf == [shape \in c_ShapesT |-> IF Len(shape) = 1 THEN Views1(shape) ELSE ViewsN(shape)]
 Sel(k, s, box) == [k |-> k, s |-> s, box |-> box]
 N(shape) == Size(shape)
+BoxFull(shape) == [k \in 1..Len(shape) |-> IF k = Len(shape) THEN <<1, shape[k]>> ELSE IF k = Len(shape) - 1 THEN <<0, 1>> ELSE <<0, shape[k]>>]
 BoxFor(shape) == [k \in 1..Len(shape) |-> IF k = Len(shape) THEN <<1, shape[k]>> ELSE <<0, 1>>]
 c_SelsOf == [shape \in c_ShapesT |->
     {Sel("none", {}, <<>>), Sel("set", {}, <<>>), Sel("set", {N(shape) - 1}, <<>>), Sel("set", {2, 3}, <<>>),
-     Sel("set", {p \in 0..(N(shape) - 1) : p % 2 = 1}, <<>>), Sel("box", {}, BoxFor(shape))}]
+     Sel("set", {p \in 0..(N(shape) - 1) : p % 2 = 1}, <<>>), Sel("box", {}, BoxFor(shape)), Sel("box", {}, BoxFull(shape))}]
 H(vals, sel, lo, hi, n, log) == [vals |-> vals, sel |-> sel, lo |-> lo, hi |-> hi, n |-> n, log |-> log]
 c_HVals == <<0, 1, 2, 2, 3, 4, 1000, 5, -1, 8>>
 c_Hist == {H(c_HVals, sel, lo, hi, n, log) :
-              sel \in {1..10, {}, {2, 3, 4, 7}, {1, 5, 6, 10}}, lo \in {0, 1, 4, -2}, hi \in {4, 0, 8, 5}, n \in 1..4, log \in {FALSE}}
+              sel \in {1..10, {}, {2, 3, 4, 7}, {1, 5, 6, 10}}, lo \in {0, 1, 4, -2}, hi \in {4, 0, 8, 5, -1}, n \in 1..4, log \in {FALSE}}
           \cup {H(<<0, 2, 4, 2, 1000, 6>>, sel, lo, hi, n, TRUE) : sel \in {1..6, {2, 3, 6}}, lo \in {-1, 7}, hi \in {7, -1}, n \in {1, 2, 4}}
 ====
